@@ -32,7 +32,7 @@ CHECKS = {
          'mixture_inference.estimate_total is AST-extracted (jax absent); singular values of generated dense queries kept in [0.5,5] so row-space membership is unambiguous.'),
  'C08': ('Hypothesis-generated estimation problems (3 solvers, iteration counts incl. 1, early exits, structural zeros) vs brute-force joint of the returned parameters; all-subsets query sweep',
          'Generated-input search: the returned model is queried on every attribute subset (drawn orders) and each answer, the stored marginals and the data vector are compared with the joint of the stored potentials; finite / non-negative / sums-to-total asserted explicitly.',
-         'One-cell projections and all-zero queries are not given to RDA/IG (ARPACK preconditions). F14 (MD step doubling) is a listed known finding recognised by its root-cause signature. Tolerances are 1e-6 + 1e-14 x the largest parameter magnitude (stored, or handed to belief propagation during an RDA/IG run, up to 1e14): float64 resolution of log-probabilities.'),
+         'One-cell projections and all-zero queries are not given to RDA/IG (ARPACK preconditions). F14 (MD step doubling; two signatures) and F21-C08 (MD at totals ~1e-8) are listed known findings recognised by their root-cause signatures. Tolerances are 1e-6 + 1e-14 x the largest parameter magnitude (stored, or handed to belief propagation during an RDA/IG run, up to 1e14): float64 resolution of log-probabilities.'),
  'C03': ('Hypothesis-generated estimation problems vs an independent simplex-QP solver with a Frank-Wolfe duality-gap certificate (differential, certified bounds)',
          'Generated-input search over measurement sets and solvers; the loss recomputed from model.project answers must lie between the certified minimum and the uniform start, and reach the optimum under iteration escalation (plateau rule; still-decreasing runs are inconclusive, never violations).',
          'Trusts the oracle solver only through its certificate (cases whose gap is not < 1e-9 are inconclusive). F14 instances (single-cell projections under MD) are a listed known finding.'),
